@@ -221,7 +221,17 @@ var OnCall func(name string)
 // at its start (white-box assertions about the state in which a call is made).
 var OnCallArgs func(name, args string)
 
+// OnReturn, when set, runs after a journaled call has finished and released the adapter (not after
+// a panicking call).
+var OnReturn func(name string)
+
 func (a *Adapter) call(name, args string, mutating bool, fn func(st *State) error) (err error) {
+	ret := false
+	defer func() {
+		if ret && OnReturn != nil {
+			OnReturn(name)
+		}
+	}()
 	if OnCallArgs != nil {
 		OnCallArgs(name, args)
 	}
@@ -259,7 +269,7 @@ func (a *Adapter) call(name, args string, mutating bool, fn func(st *State) erro
 		err = ErrClosed
 	}
 	if err != nil {
-		returned = true
+		returned, ret = true, true
 		return err
 	}
 
@@ -277,7 +287,7 @@ func (a *Adapter) call(name, args string, mutating bool, fn func(st *State) erro
 	} else {
 		err = fn(a.st)
 	}
-	returned = true
+	returned, ret = true, true
 	return err
 }
 
